@@ -44,8 +44,8 @@ impl Check for C01 {
     }
     fn episodes(&self, tier: Tier) -> u64 {
         match tier {
-            Tier::Quick => 120_000,
-            Tier::Thorough => 6_000_000,
+            Tier::Quick => 800_000,
+            Tier::Thorough => 45_000_000,
         }
     }
     fn hang_is_violation(&self) -> bool {
